@@ -287,6 +287,7 @@ func (m *Module) EmitBinOp(x, y Value, op wat.OpCode) (insts []wat.Inst, ret_typ
 			insts = append(insts, wat.NewInstConst(wat.I32{}, "65535"))
 			insts = append(insts, wat.NewInstAnd(wat.I32{}))
 		}
+		insts = m.emitShiftGuard(x, y, insts, false)
 
 	case wat.OpCodeShr:
 		ret_type = x.Type()
@@ -308,6 +309,7 @@ func (m *Module) EmitBinOp(x, y Value, op wat.OpCode) (insts []wat.Inst, ret_typ
 		} else {
 			logger.Fatal("Unreachable")
 		}
+		insts = m.emitShiftGuard(x, y, insts, true)
 
 	case wat.OpCodeAndNot:
 		ret_type = x.Type()
@@ -322,6 +324,45 @@ func (m *Module) EmitBinOp(x, y Value, op wat.OpCode) (insts []wat.Inst, ret_typ
 	}
 
 	return
+}
+
+// emitShiftGuard gives x << y and x >> y the language's semantics for counts
+// that are not smaller than the operand width: WebAssembly takes the count
+// modulo the width, the language shifts every bit out (0, or the sign fill for
+// a signed right shift). shift is the plain instruction sequence.
+func (m *Module) emitShiftGuard(x, y Value, shift []wat.Inst, isShr bool) []wat.Inst {
+	width := 32
+	if x.Type().Size() == 8 {
+		width = 64
+	}
+	if y.Kind() == ValueKindConst {
+		if c, err := strconv.ParseUint(y.Name(), 0, 64); err == nil && c < uint64(width) {
+			return shift
+		}
+	}
+
+	var cmp_type wat.ValueType = wat.U32{}
+	if y.Type().Size() == 8 {
+		cmp_type = wat.U64{}
+	}
+	var insts []wat.Inst
+	insts = append(insts, y.EmitPushNoRetain()...)
+	insts = append(insts, NewConst(strconv.Itoa(width), y.Type()).EmitPushNoRetain()...)
+	insts = append(insts, wat.NewInstLt(cmp_type))
+
+	var out []wat.Inst
+	ret := toWatType(x.Type())
+	_, i32 := ret.(wat.I32)
+	_, i64 := ret.(wat.I64)
+	if isShr && (i32 || i64) {
+		out = append(out, x.EmitPushNoRetain()...)
+		out = append(out, NewConst(strconv.Itoa(width-1), x.Type()).EmitPushNoRetain()...)
+		out = append(out, wat.NewInstShr(ret))
+	} else {
+		out = append(out, NewConst("0", x.Type()).EmitPushNoRetain()...)
+	}
+	insts = append(insts, wat.NewInstIf(shift, out, []wat.ValueType{ret}))
+	return insts
 }
 
 func (m *Module) binOpMatchType(x, y ValueType) ValueType {
